@@ -154,6 +154,19 @@ def builder_rules(facts, rep, rule="C01-OPENERS"):
                 good = v[0] == "arg" and v[1] == 2
         from engine.query import ret_alts as _ra
         good = good and all(a_[0] == "arg" and a_[1] == 1 for a_ in _ra(g))
+        if not good and not asg:
+            # the same builder as a struct update: `FileOptions { <field>: v, ..self }`
+            ras = _ra(g)
+            if len(ras) == 1 and ras[0][0] == "agg" and not any(t_ and t_["k"] == "switch" for t_ in (g.term(b_) for b_ in range(len(g.blocks)) if not g.blocks[b_]["cleanup"])):
+                fl = dict(ras[0][3])
+                v = fl.get(fld)
+                if v is not None:
+                    if nm == "unix_permissions":
+                        okv = v[0] == "agg" and v[1] == "adt:Some" and v[3][0][1][0] == "bin" and v[3][0][1][1] == "BitAnd" and \
+                            any(x_[0] == "arg" and x_[1] == 2 for x_ in (v[3][0][1][2], v[3][0][1][3])) and any(x_[0] in ("const", "named") and x_[2] == 0o777 for x_ in (v[3][0][1][2], v[3][0][1][3]))
+                    else:
+                        okv = v[0] == "arg" and v[1] == 2
+                    good = okv and all(w_[0] == "field" and w_[2] == k_ and w_[1][0] == "arg" and w_[1][1] == 1 for k_, w_ in fl.items() if k_ != fld)
         ok &= rep.check(good, rule, "builder:%s" % nm, where(g, g.span), "%s(v): self.%s = %s; self" % (nm, fld, "Some(v & 0o777)" if nm == "unix_permissions" else "v"),
                         "FileOptions::%s does not store its argument in `%s` (unconditionally) and return the options: the option is silently not applied" % (nm, fld))
     return ok
